@@ -1227,24 +1227,78 @@ func (w *World) ruleEncoderNoSetters(r *Report, rule string) {
 				continue
 			}
 			m++
-			ok := true
-			fact := "the input slice is only handed to bytes.NewReader or to another entry point"
-			for _, ref := range *p.Referrers() {
-				switch x := ref.(type) {
-				case *ssa.DebugRef:
-				case *ssa.Call:
-					sc := x.Call.StaticCallee()
-					if sc == nil || !(qualifiedFnName(sc) == "bytes.NewReader" || (w.inPkg(sc) && token.IsExported(sc.Name()))) {
-						ok, fact = false, "the input slice is passed to "+x.String()
-					}
-				default:
-					ok, fact = false, "the input slice is used by "+ref.String()
-				}
+			ok, fact := w.inputOnlyRead(p, map[*ssa.Parameter]bool{})
+			if ok {
+				fact = "the input slice is only read: handed to bytes.NewReader, measured, re-sliced, converted to a string, or passed on to package functions that do the same"
 			}
 			r.add(rule, fmt.Sprintf("%s · input %s", fnName(fn), p.Name()), w.pos(fn.Pos()), ok, fact)
 		}
 	}
 	r.floor(rule+" (input byte slices)", m, 3)
+}
+
+// inputOnlyRead: every use of the byte-slice parameter p reads it — it is
+// wrapped by bytes.NewReader, measured (len/cap), re-sliced or converted to a
+// string (a copy), or handed to a package function whose corresponding
+// parameter is itself only read (followed into the callee; a cycle of such
+// hand-overs writes nothing).
+func (w *World) inputOnlyRead(p *ssa.Parameter, busy map[*ssa.Parameter]bool) (bool, string) {
+	if busy[p] {
+		return true, ""
+	}
+	busy[p] = true
+	var check func(v ssa.Value, depth int) (bool, string)
+	check = func(v ssa.Value, depth int) (bool, string) {
+		if depth > 6 {
+			return false, "the input slice is re-sliced too deeply to follow"
+		}
+		for _, ref := range *v.Referrers() {
+			switch x := ref.(type) {
+			case *ssa.DebugRef:
+			case *ssa.Slice:
+				if x.X != v {
+					continue // used as a bound, not as the sliced operand
+				}
+				if ok, f := check(x, depth+1); !ok {
+					return false, f
+				}
+			case *ssa.Convert:
+				if b, isB := x.Type().Underlying().(*types.Basic); !isB || b.Info()&types.IsString == 0 {
+					return false, "the input slice is used by " + ref.String()
+				}
+			case *ssa.Call:
+				if bi, isB := x.Call.Value.(*ssa.Builtin); isB && (bi.Name() == "len" || bi.Name() == "cap") {
+					continue
+				}
+				sc := x.Call.StaticCallee()
+				if sc == nil {
+					return false, "the input slice is passed to " + x.String()
+				}
+				if qualifiedFnName(sc) == "bytes.NewReader" {
+					continue
+				}
+				if !w.inPkg(sc) || sc.Blocks == nil {
+					return false, "the input slice is passed to " + x.String()
+				}
+				args := x.Call.Args
+				if len(args) != len(sc.Params) {
+					return false, "the input slice is passed to " + x.String()
+				}
+				for i, a := range args {
+					if a != v {
+						continue
+					}
+					if ok, f := w.inputOnlyRead(sc.Params[i], busy); !ok {
+						return false, "handed to " + fnName(sc) + ", where " + f
+					}
+				}
+			default:
+				return false, "the input slice is used by " + ref.String()
+			}
+		}
+		return true, ""
+	}
+	return check(p, 0)
 }
 
 func derivesFromReflectNew(v ssa.Value, depth int) (bool, string) {
